@@ -497,7 +497,9 @@ func c05model(c *Ctx, ruleW, ruleR, ruleT string) {
 				case len(w.problems) > 0:
 					v.msg = fmt.Sprintf("Write(%s): %s", g.tn, w.problems[0])
 				default:
-					if eq, ok := oEqual(res[0], oNil{}); !ok || !eq {
+					if eq, ok := oEqual(res[0], oNil{}); !ok {
+						v.unk = fmt.Sprintf("Write(%s): the error result is %s", g.tn, showVal(res[0]))
+					} else if !eq {
 						v.msg = fmt.Sprintf("Write(%s, order %s) returns an error for a supported geometry", g.tn, o)
 					} else if !sameItems(w.stream, want) {
 						v.msg = fmt.Sprintf("Write(%s, order %s) produces  %s  — the OGC layout is  %s  (flag, type code, counts = number of members that follow, members as complete WKB, everything in the requested order)", g.tn, o, showItems(w.stream), showItems(want))
@@ -542,7 +544,9 @@ func c05model(c *Ctx, ruleW, ruleR, ruleT string) {
 				case len(w.problems) > 0:
 					r.msg = what + ": " + w.problems[0]
 				default:
-					if eq, ok := oEqual(res[1], oNil{}); !ok || !eq {
+					if eq, ok := oEqual(res[1], oNil{}); !ok {
+						r.unk = what + ": the error result is " + showVal(res[1])
+					} else if !eq {
 						r.msg = what + " fails on a well-formed message"
 					} else if w.pos != len(w.stream) {
 						r.msg = fmt.Sprintf("%s leaves %d of %d items unread", what, len(w.stream)-w.pos, len(w.stream))
@@ -579,7 +583,9 @@ func c05model(c *Ctx, ruleW, ruleR, ruleT string) {
 			case len(w.problems) > 0:
 				r.msg = fmt.Sprintf("Read of a line string of %d points: %s", n, w.problems[0])
 			default:
-				if eq, ok := oEqual(res[1], oNil{}); !ok || !eq {
+				if eq, ok := oEqual(res[1], oNil{}); !ok {
+					r.unk = fmt.Sprintf("Read of a line string of %d points: the error result is %s", n, showVal(res[1]))
+				} else if !eq {
 					r.msg = fmt.Sprintf("Read fails on a well-formed line string of %d points", n)
 				} else if !collectVerts(res[0], &got, map[*[]oval]bool{}) || !samePts(got, ps) {
 					r.msg = fmt.Sprintf("Read of a line string of %d points returns %d points, or points out of order", n, len(got))
